@@ -284,7 +284,7 @@ int main()
       o << H(K1.m_center[0]) << " " << H(K1.m_height) << "\n";
     } else if (cmd == "OBJ") {
       // history on ONE fresh periodic variable: initial period/centre, then M P c (modifycvcs) | W x (colvar::wrap)
-      // | D x1 x2 (colvar::dist2 + dist2_lgrad), in the order given
+      // | D x1 x2 (colvar::dist2 + dist2_lgrad) | X x1 x2 (wrap both, then dist2 + dist2_lgrad), in the order given
       double P0 = nf(), c0 = nf();
       char body[1024];
       snprintf(body, sizeof(body), "  distanceZ {\n    main { atomNumbers 1 }\n    ref { dummyAtom (0,0,0) }\n    axis (0,0,1)\n    period %.17g\n    wrapAround %.17g\n  }\n", P0, c0);
@@ -304,6 +304,11 @@ int main()
           colvarvalue x(nf()); cv->wrap(x); out += " " + vs_hex(x);
         } else if (op == "D") {
           colvarvalue x1(nf()), x2(nf());
+          out += " " + H(cv->dist2(x1, x2)) + " " + vs_hex(cv->dist2_lgrad(x1, x2));
+        } else if (op == "X") {
+          // what a bias keeping wrapped centres does: wrap both values with the object, then take the distance
+          colvarvalue x1(nf()), x2(nf());
+          cv->wrap(x1); cv->wrap(x2);
           out += " " + H(cv->dist2(x1, x2)) + " " + vs_hex(cv->dist2_lgrad(x1, x2));
         }
       }
